@@ -5,6 +5,9 @@
  *   ORD   comma separated variable indices, bottom first; the LAST one is the main variable y (top)
  *   POLY  polyio.h text; NA assigned variables follow as index + valio.h token
  *   OP    iso   R <n> <root>* R2 <n> <root>* Y <n> <restored>
+ *         isof  { F <n> <root>* | K <sgn> }* (one per square-free factor of the model-based reductum, in the
+ *               order of lp_polynomial_factor_square_free; F = factor in y with the roots coefficient_roots_isolate
+ *               returns, K = factor without y with its sign)  R <n> <root>*  (what lp_polynomial_roots_isolate returns)
  *         fs    R <n> <root>* P <np> <probe>* { S <sc> <neg> <k> <interval>* C <bits> }x12 { N <sc> <k> <interval>* C <bits> }x6
  *                 E <6 bits per probe>*
  *         rc    R <n> <root>* P <np> <probe>* K <kmax> { S <k> <sc> <neg> <m> <interval>* C <bits> }* { E <k> <6 bits per probe>* }*
@@ -18,6 +21,8 @@
 #include <interval.h>
 #include <sign_condition.h>
 #include "polynomial/feasibility_set.h"
+#include "polynomial/polynomial.h"
+#include "polynomial/coefficient.h"
 
 static lp_assignment_t* M;
 static int yidx;
@@ -154,6 +159,35 @@ static void do_iso(lp_polynomial_t* A) {
   free(roots);
 }
 
+/* the front half of lp_polynomial_roots_isolate re-done with the library's own functions, to show the model of
+ * the back half (gather / sort / de-duplicate, coq/FeasSweep.v roots_isolate_assemble) its inputs */
+static void do_isof(lp_polynomial_t* A) {
+  const lp_polynomial_context_t* ctx = lp_polynomial_get_context(A);
+  lp_polynomial_t A_r; lp_polynomial_construct(&A_r, ctx);
+  lp_polynomial_reductum_m(&A_r, A, M);
+  lp_polynomial_t** factors = 0; size_t* mult = 0; size_t nf = 0;
+  lp_polynomial_factor_square_free(&A_r, &factors, &mult, &nf);
+  for (size_t f = 0; f < nf; ++f) {
+    if (lp_polynomial_top_variable(factors[f]) == yvar) {
+      size_t d = lp_polynomial_degree(factors[f]), n = 0;
+      lp_value_t* rs = malloc(sizeof(lp_value_t) * (d + 1));
+      coefficient_roots_isolate(ctx, &factors[f]->data, M, rs, &n);
+      print_values("F", rs, n); putchar(' ');
+      free_values(rs, n);
+    } else {
+      printf("K %d ", lp_polynomial_sgn(factors[f], M));
+    }
+  }
+  for (size_t f = 0; f < nf; ++f) { lp_polynomial_destruct(factors[f]); free(factors[f]); }
+  free(factors); free(mult);
+  lp_polynomial_destruct(&A_r);
+  size_t deg = lp_polynomial_degree(A), n = 0;
+  lp_value_t* roots = malloc(sizeof(lp_value_t) * (deg + 1));
+  lp_polynomial_roots_isolate(A, M, roots, &n);
+  print_values("R", roots, n);
+  free_values(roots, n);
+}
+
 static void do_fs(lp_polynomial_t* A) {
   size_t deg = lp_polynomial_degree(A);
   lp_value_t* roots = malloc(sizeof(lp_value_t) * (deg + 1));
@@ -243,6 +277,7 @@ int main(void) {
     if (!ok) printf("BAD-VALUE");
     else if (lp_polynomial_is_constant(A) || lp_polynomial_top_variable(A) != yvar) printf("NOT-MAIN");
     else if (is_op("iso")) do_iso(A);
+    else if (is_op("isof")) do_isof(A);
     else if (is_op("fs")) do_fs(A);
     else if (is_op("rc")) do_rc(A);
     else printf("UNKNOWN-OP");
